@@ -223,13 +223,19 @@ def check_replace(ctx, R, kw, rng):
     """replace() returns a rule differing only in the named parameters"""
     base = R.rrule(**kw)
     st = kw['dtstart']
-    changes = [{'interval': kw.get('interval', 1) + 1}, {'dtstart': st + D.timedelta(days=1)}, {'dtstart': st + D.timedelta(days=3, hours=2)},
+    if st.year >= 9990:
+        st_changes = [{'dtstart': st - D.timedelta(days=1)}, {'dtstart': st - D.timedelta(days=3, hours=2)}]
+    else:
+        st_changes = [{'dtstart': st + D.timedelta(days=1)}, {'dtstart': st + D.timedelta(days=3, hours=2)}]
+    changes = st_changes + [{'interval': kw.get('interval', 1) + 1},
                {'wkst': R.SU}, {'freq': rng.choice([R.DAILY, R.WEEKLY, R.MONTHLY])}, {'byweekday': [R.TU, R.TH]}, {'byhour': [1, 13]},
                {'bymonthday': [1, 2, 3]}]
     if 'count' in kw:
         changes += [{'count': kw['count'] + 2}, {'count': max(0, kw['count'] - 1)}, {'count': 0}]
-    else:
+    elif 'until' in kw:
         changes += [{'until': kw['until'] + D.timedelta(days=5)}, {'until': kw['until'] - D.timedelta(days=1)}]
+    else:
+        changes += [{'count': 3}, {'until': st - D.timedelta(days=2)}, {'until': st}]
     for ch in rng.sample(changes, 4):
         merged = dict(kw)
         merged.update(ch)
